@@ -1165,6 +1165,223 @@ fn run_values(tera: &Tera, seed: u64, n: usize) -> TypeRun {
     TypeRun { name: "tera::Value", ty: "value".into(), in_family: false, outs }
 }
 
+// ------------------------------------------------------------------ args.rs: the typed readers
+
+use tera::{ArgFromValue, Kwargs};
+
+fn arg_show<T: Z>(r: Result<Result<T, tera::Error>, String>) -> String {
+    match r {
+        Err(p) => format!("panic {p}"),
+        Ok(Ok(y)) => format!("ok {}", y.sval()),
+        Ok(Err(e)) => match e.kind() {
+            tera::ErrorKind::InvalidArgument { .. } => "err type".into(),
+            tera::ErrorKind::OutOfRangeArgument { .. } => "err range".into(),
+            _ => format!("err other {e}"),
+        },
+    }
+}
+
+/// one value read as `T` through every public typed reader: `T::try_from(Value)`,
+/// `ArgFromValue::from_value(&Value)`, `Kwargs::get::<T>`, `Kwargs::must_get::<T>`
+fn arg_one<T>(v: &Value, name: &str, out: &mut Out) -> String
+where
+    T: Z + TryFrom<Value, Error = tera::Error> + for<'k> ArgFromValue<'k, Output = T>,
+{
+    let kw = Kwargs::from([("k", v.clone())]);
+    let a = arg_show::<T>(catch(std::panic::AssertUnwindSafe(|| T::try_from(v.clone()))));
+    let b = arg_show::<T>(catch(std::panic::AssertUnwindSafe(|| <T as ArgFromValue>::from_value(v))));
+    let c = arg_show::<T>(catch(std::panic::AssertUnwindSafe(|| kw.get::<T>("k").map(|o| o.unwrap()))));
+    let d = arg_show::<T>(catch(std::panic::AssertUnwindSafe(|| kw.must_get::<T>("k"))));
+    out.checks += 1;
+    if a != b || a != c || a != d || a.starts_with("panic") {
+        out.fails.push(format!("typed readers of {name} disagree on {}: try_from {a} / from_value {b} / Kwargs::get {c} / must_get {d}", encode(v)));
+    }
+    out.model.push((format!("arg {name} {}", encode(v)), a.clone(), "args.rs readers"));
+    a
+}
+
+macro_rules! arg_matrix {
+    ($v:expr, $out:expr) => {{
+        arg_one::<i8>($v, "i8", $out);
+        arg_one::<i16>($v, "i16", $out);
+        arg_one::<i32>($v, "i32", $out);
+        arg_one::<i64>($v, "i64", $out);
+        arg_one::<i128>($v, "i128", $out);
+        arg_one::<isize>($v, "i64", $out);
+        arg_one::<u8>($v, "u8", $out);
+        arg_one::<u16>($v, "u16", $out);
+        arg_one::<u32>($v, "u32", $out);
+        arg_one::<u64>($v, "u64", $out);
+        arg_one::<u128>($v, "u128", $out);
+        arg_one::<usize>($v, "u64", $out);
+        arg_one::<f32>($v, "f32", $out);
+        arg_one::<f64>($v, "f64", $out);
+        arg_one::<bool>($v, "bool", $out);
+    }};
+}
+
+#[derive(Deserialize)]
+struct KW<T> {
+    k: T,
+}
+
+/// "reading it back into the same Rust type returns the original" through the typed readers
+fn arg_roundtrip<T>(x: &T, name: &str, matrix: bool) -> Out
+where
+    T: Z + TryFrom<Value, Error = tera::Error> + for<'k> ArgFromValue<'k, Output = T>,
+{
+    let mut out = Out::default();
+    let v = Value::from_serializable(x);
+    let got = arg_one::<T>(&v, name, &mut out);
+    out.checks += 2;
+    if got != format!("ok {}", x.sval()) {
+        out.fails.push(format!("{name}: the typed readers (try_from / Kwargs::get) give {got} for {x:?}"));
+    }
+    // and `Kwargs::deserialize` (serde through `&Value`)
+    let kw = Kwargs::from([("k", v.clone())]);
+    let de = match catch(std::panic::AssertUnwindSafe(|| kw.deserialize::<KW<T>>())) {
+        Ok(Ok(w)) => format!("ok {}", w.k.sval()),
+        Ok(Err(_)) => "err".into(),
+        Err(p) => format!("panic {p}"),
+    };
+    if de != format!("ok {}", x.sval()) {
+        out.fails.push(format!("{name}: Kwargs::deserialize gives {de} for {x:?}"));
+    }
+    if matrix {
+        arg_matrix!(&v, &mut out);
+    }
+    out
+}
+
+fn run_args(seed: u64, n: usize) -> TypeRun {
+    let mut rng = Rng::new(seed ^ 0xa465);
+    let mut outs: Vec<(String, Out)> = Vec::new();
+    macro_rules! rt {
+        ($t:ty, $name:expr, $x:expr, $m:expr) => {{
+            let x: $t = $x;
+            outs.push((format!("{} {}", $name, x.sval()), arg_roundtrip::<$t>(&x, $name, $m)));
+        }};
+    }
+    // floats: ±inf, NaN, ±0.0, subnormals, MAX, the edge of f32's range
+    for x in [f32::INFINITY, f32::NEG_INFINITY, f32::NAN, 0.0, -0.0, f32::MAX, f32::MIN, f32::MIN_POSITIVE, 1e-45, -1e-45, 1.17549421e-38, 16777216.0, 16777217.0, 0.1] {
+        rt!(f32, "f32", x, true);
+    }
+    for x in [
+        f64::INFINITY, f64::NEG_INFINITY, f64::NAN, 0.0, -0.0, f64::MAX, f64::MIN, f64::MIN_POSITIVE, 5e-324,
+        f32::MAX as f64, -(f32::MAX as f64), 3.4028235677973366e38, 3.4028235677973362e38, 3.402823567797337e38, 3.4028236e38, 1e39, -1e39,
+        1e-45, 7.006492321624085e-46, 7.006492321624087e-46, 1e-46, 2.0, 2.5, -1.0, 255.0, 256.0, 1.7014118346046923e38, -1.7014118346046923e38, 1.7014118346046921e38, 3.4028236692093846e38, 1e300,
+    ] {
+        rt!(f64, "f64", x, true);
+    }
+    for _ in 0..n {
+        let m = rng.chance(1, 3);
+        match rng.below(15) {
+            0 => rt!(i8, "i8", Z::gen_(&mut rng, 0), m),
+            1 => rt!(i16, "i16", Z::gen_(&mut rng, 0), m),
+            2 => rt!(i32, "i32", Z::gen_(&mut rng, 0), m),
+            3 => rt!(i64, "i64", Z::gen_(&mut rng, 0), m),
+            4 => rt!(i128, "i128", Z::gen_(&mut rng, 0), m),
+            5 => rt!(isize, "i64", Z::gen_(&mut rng, 0), m),
+            6 => rt!(u8, "u8", Z::gen_(&mut rng, 0), m),
+            7 => rt!(u16, "u16", Z::gen_(&mut rng, 0), m),
+            8 => rt!(u32, "u32", Z::gen_(&mut rng, 0), m),
+            9 => rt!(u64, "u64", Z::gen_(&mut rng, 0), m),
+            10 => rt!(u128, "u128", Z::gen_(&mut rng, 0), m),
+            11 => rt!(usize, "u64", Z::gen_(&mut rng, 0), m),
+            12 => rt!(f32, "f32", Z::gen_(&mut rng, 0), m),
+            13 => rt!(f64, "f64", Z::gen_(&mut rng, 0), m),
+            _ => rt!(bool, "bool", Z::gen_(&mut rng, 0), m),
+        }
+    }
+    // other kinds read as numbers
+    for v in [Value::from("1"), Value::none(), Value::undefined(), Value::from(vec![Value::from(1)]), Value::bytes(vec![1u8])] {
+        let mut o = Out::default();
+        arg_matrix!(&v, &mut o);
+        outs.push((format!("other {}", encode(&v)), o));
+    }
+    TypeRun { name: "tera::args (typed readers)", ty: "args".into(), in_family: true, outs }
+}
+
+// ------------------------------------------------------------------ context histories
+
+/// Several writes under ONE key through every construction path; after every step the binding
+/// must be what a context built with `insert_value` alone holds (kind tree and rendering).
+fn ctx_history(tera: &Tera, steps: &[(usize, Value)]) -> (String, Out) {
+    let mut out = Out::default();
+    let mut ctx = Context::new();
+    let mut reference = Context::new();
+    let mut desc = String::new();
+    for (i, (path, val)) in steps.iter().enumerate() {
+        let name = ["insert", "insert_value", "from_serialize+extend", "insert-into-other+extend", "remove"][*path];
+        desc.push_str(&format!("{}{name}:{}", if i > 0 { " | " } else { "" }, encode(val)));
+        let r = catch(std::panic::AssertUnwindSafe(|| {
+            let mut ctx = ctx.clone();
+            match path {
+                0 => ctx.insert("v", val),
+                1 => ctx.insert_value("v", val.clone()),
+                2 => ctx.extend(Context::from_serialize(&Wrap { v: val }).expect("from_serialize")),
+                3 => {
+                    let mut other = Context::new();
+                    other.insert("v", val);
+                    ctx.extend(other);
+                }
+                _ => {
+                    ctx.remove("v");
+                }
+            }
+            ctx
+        }));
+        match r {
+            Ok(c) => ctx = c,
+            Err(p) => {
+                out.fails.push(format!("history `{desc}`: panic {p}"));
+                break;
+            }
+        }
+        if *path == 4 {
+            reference.remove("v");
+        } else {
+            reference.insert_value("v", val.clone());
+        }
+        out.checks += 2;
+        let (a, b) = (ctx.get("v").map(encode), reference.get("v").map(encode));
+        if a != b {
+            out.fails.push(format!("after `{desc}` the key holds {a:?}; with insert_value alone it holds {b:?}"));
+            break;
+        }
+        let (a, b) = (render(tera, &ctx), render(tera, &reference));
+        if a != b {
+            out.fails.push(format!("after `{desc}` `{{{{ v }}}}` renders {a}; with insert_value alone {b}"));
+            break;
+        }
+    }
+    (format!("hist {desc}"), out)
+}
+
+fn run_ctx_histories(tera: &Tera, seed: u64, n: usize) -> TypeRun {
+    let mut rng = Rng::new(seed ^ 0xc7c7);
+    let mut outs = Vec::new();
+    // every ordered pair of write paths under the same key, with two different values
+    for a in 0..4 {
+        for b in 0..4 {
+            outs.push(ctx_history(tera, &[(a, Value::from(1)), (b, Value::from("two"))]));
+            outs.push(ctx_history(tera, &[(a, Value::from(1)), (4, Value::none()), (b, Value::from(2))]));
+        }
+    }
+    for _ in 0..n {
+        let len = 2 + rng.below(3);
+        let steps: Vec<(usize, Value)> = (0..len)
+            .map(|_| {
+                let p = if rng.chance(1, 10) { 4 } else { rng.below(4) };
+                let d = rng.below(3);
+                (p, rand_value_v(&mut rng, d, true))
+            })
+            .collect();
+        outs.push(ctx_history(tera, &steps));
+    }
+    TypeRun { name: "tera::Context (histories)", ty: "context".into(), in_family: true, outs }
+}
+
 struct TypeRun {
     name: &'static str,
     ty: String,
@@ -1270,6 +1487,31 @@ fn main() {
         let text = std::fs::read_to_string(&path).expect("replay file");
         let j: serde_json::Value = serde_json::from_str(&text).expect("replay json");
         let j = if j.get("replay").is_some() { j["replay"].clone() } else { j };
+        if j["type"] == "tera::Context (histories)" {
+            // value = "hist <path>:<wire> | <path>:<wire> …"
+            let names = ["insert", "insert_value", "from_serialize+extend", "insert-into-other+extend", "remove"];
+            let steps: Vec<(usize, Value)> = j["value"].as_str().unwrap().trim_start_matches("hist ").split(" | ").map(|st| {
+                let (p, w) = st.split_once(':').unwrap();
+                (names.iter().position(|n| *n == p).unwrap(), tera_verif_harness::wire::decode(w).expect("value"))
+            }).collect();
+            let (d, o) = ctx_history(&tera, &steps);
+            println!("{d}\noracle failures: {:?}", o.fails);
+            return;
+        }
+        if j["type"] == "tera::args (typed readers)" {
+            let tr = run_args(j["seed"].as_u64().unwrap(), 0);
+            // the fixed edge values are re-run; a random one is identified by its description
+            for (d, o) in tr.outs.iter().filter(|(d, _)| Some(d.as_str()) == j["value"].as_str()) {
+                println!("{d}");
+                for (req, imp, _) in &o.model {
+                    let m = driver::run_batch(&exe, std::slice::from_ref(req)).map(|v| v[0].clone());
+                    println!("   request: {req}\n   implementation: {imp}\n   model: {m:?}");
+                }
+                println!("oracle failures: {:?}", o.fails);
+            }
+            println!("(value: {})", j["value"]);
+            return;
+        }
         if j["type"] == "tera::Value" {
             let v = tera_verif_harness::wire::decode(j["value"].as_str().unwrap()).expect("value");
             let o = run_value_level(&tera, &v);
@@ -1330,6 +1572,8 @@ fn main() {
     });
     let mut results = results;
     results.push(run_values(&tera, seed, env.budget(20_000, 40_000)));
+    results.push(run_args(seed, env.budget(6_000, 12_000)));
+    results.push(run_ctx_histories(&tera, seed, env.budget(6_000, 12_000)));
     if round == 0 {
         let fixed = fixed_runs(&tera);
         report.count_n("values.fixed_regression", fixed.iter().map(|t| t.outs.len() as u64).sum());
